@@ -141,6 +141,8 @@ def slice_grid_search(log):
                     f = lambda v: '' if v is None else str(v)
                     exprs.append('%r[%s:%s:%s]' % (xs, f(st), f(sp), f(step)))
                     wants.append('OK %r' % xs[slice(st, sp, step)])
+        exprs.append('len(%r)' % xs)
+        wants.append('OK %d' % n)
         for i in list(range(-8, 9)):
             exprs.append('%r[%d]' % (xs, i))
             try:
